@@ -729,7 +729,7 @@ func run(c *Ctx) error {
 	}
 	nRand, nStale := 260, 24
 	if c.Tier != "quick" {
-		nRand, nStale = 6000, 200
+		nRand, nStale = 3000, 150
 	}
 	for k := 0; k < nStale; k++ {
 		s, fam := genStale(c.Rng)
